@@ -13,8 +13,10 @@ CHECKS = {
  'C01': ('model_checking', 'tlc-algebra', 'TLC explores the merge model (SigMachine: transcription of _Merger and of the n-ary bucket fold) exhaustively over all pairs of the bounded universe and by simulation at arity 3/4 with the soundness contract as invariant; the same contract is evaluated by TLC on traces of the real signatures.merge over every pair, sampled triples and every model counterexample.', '§5 C01'),
  'C02': ('model_checking', 'tlc-algebra', 'TLC explores the embed model over all (outer, inner) pairs x the four use_* flag pairs with soundness / exactness / raise-only-when as invariants; the same contracts, the fold law and neutrality of a bare (*args, **kwargs) are evaluated by TLC on events of the real signatures.embed.', '§5 C02'),
  'C03': ('model_checking', 'tlc-algebra', 'TLC explores the mask model over every signature x n x name tuples in every order x hide flags with exactness / raise-iff / hide-soundness as invariants; the same contracts and the laws (order independence over all permutations, mask(s,0)=s, composition, hide only removes) are evaluated by TLC on events of the real signatures.mask.', '§5 C03'),
+ 'C04': ('model_checking', 'tlc-algebra + tlc-exec', '(a) forwards = embed o mask as an equality of two real results and the composite soundness contract, as TLC invariant on the model and evaluated on real forwards outputs; (b) generated wrappers (8 placements: function, emulate, method, super, apply_forwards_to_super, bound/unbound) decorated as declared, retrieved through the real sigtools and really called on every shape of the call set; TLC (Trace_Exec) checks accepted => runs, rejected => raises where exactness is claimed, all retrieval routes agree, and that the spec\'s execution semantics (Wrappers!ExecOutcome) predicted every real outcome.', '§5 C04'),
  'C08': ('model_checking', 'tlc-algebra', 'Provenance well-formedness (keys exact, non-empty, duplicate-free, depths present and ordered, exactly the declaring inputs) is an invariant of every SigMachine result over universes with equal and different star names, and is evaluated by TLC on every result the real merge/embed/mask/forwards return.', '§5 C08'),
  'C09': ('model_checking', 'tlc-algebra', 'Exactness and raise-iff of merge on name-aligned role-consistent inputs as TLC invariants over all pairs, and evaluated on real merge outputs; the identity, idempotence, neutral-element, sort/apply and fold laws are checked by TLC as equalities between two REAL results logged in one event.', '§5 C09'),
+ 'C10': ('model_checking', 'tlc-algebra', 'The metadata rules (optional only if all optional; common default else None; agreed annotation else none; kinds only restrict; order; outer defaults dropped only before a required inner positional; partial keywords) as TLC invariants over a universe extended with distinct default and annotation ids, and evaluated by TLC on real results computed with real default/annotation objects.', '§5 C10'),
  'C15': ('model_checking', 'tlc-algebra', 'ValidSig / upgraded / +depths of every model result as TLC invariants; on the real code every outcome over role-inconsistent inputs, foreign and duplicate names, n up to len+2 and all flags is classified by TLC (signature / IncompatibleSignatures / ValueError / other), and each sampled case is re-run with plain inspect inputs (same parameters + DeprecationWarning).', '§5 C15'),
  'C16': ('model_checking', 'tlc-algebra + tlc-retrieval', 'Algebra purity: TLC compares deep projections of all inputs before/after every real call and the identities of all provenance containers of inputs and result. Crash points: see level_note.', '§5 C16'),
  'C19': ('model_checking', 'tlc-algebra', 'TLC explores mask-in-partial-mode over universe x bindings with exactness against PartialAccepts as invariant; on the real code every partial object is really called on the complete call set and TLC checks the reported signature accepts exactly what the partial accepted, plus the structural and provenance claims.', '§5 C19'),
@@ -24,11 +26,9 @@ NOTES = {
  'C16': TRUST + ' Part (b) (crash points) is under construction; until it lands only the algebra half is decided.',
 }
 PENDING = {
- 'C04': 'check under construction (programs leg: wrappers really executed)',
  'C05': 'check under construction (AutoFwd walker model + executed programs)',
  'C06': 'check under construction (shares the C05 program space)',
  'C07': 'check under construction (Retrieval model + corpus)',
- 'C10': 'check under construction (metadata universe)',
  'C11': 'check under construction (annotation-context model)',
  'C12': 'check under construction (Modifiers routing model)',
  'C13': 'check under construction (Wrappers delivery chains)',
@@ -61,6 +61,8 @@ def main():
         'engines': [
             {'name': 'tlc-algebra', 'path': ALG, 'serves_properties': [p for p, v in CHECKS.items() if 'tlc-algebra' in v[1]],
              'kind_free_text': 'TLA+ specification of the signature algebra (reference model + relational contracts) checked by TLC; TLC trace validation of events recorded from the real code; replay of model counterexamples into the real code'},
+            {'name': 'tlc-exec', 'path': 'spec/Wrappers.tla spec/Trace_Exec.tla harness/progs.py', 'serves_properties': ['C04'],
+             'kind_free_text': 'execution semantics of forwarding wrappers in TLA+; generated programs really executed and their outcomes validated by TLC'},
             {'name': 'tlc-pybind', 'path': 'spec/PyBind.tla spec/PyBindMachine.tla spec/Trace_PyBind.tla harness/checks/c20.py', 'serves_properties': ['C20'],
              'kind_free_text': 'the CPython binding oracle in TLA+, validated by TLC against really calling generated functions'},
         ],
